@@ -35,7 +35,8 @@ ASSUMPTIONS = ["shutdown()/close() is called once, by one task; the caller's own
                "(its wait_for timer) is not counted in the census until it has returned",
                "thorough: exhaustive over loop iterations of the listed timelines only"]
 REQUIRED_OBS = ["shutdown_from_cancelled_task", "lives_judged", "shutdown_instants_judged", "during_backoff", "during_handshake",
-                "during_connect_in_flight", "steady_state", "reinit_ok", "socket_level"]
+                "during_connect_in_flight", "steady_state", "reinit_ok", "socket_level",
+                "overlapping_shutdown_calls"]
 SOAK = True   # also judged by the whole-run monitors of the soak sessions (vf/soak.py)
 BUDGET = {"quick": 110, "thorough": 1500}
 
@@ -208,7 +209,18 @@ def run_once(gen, tl, trigger, reinit=False, pending=4, double=False, idle=1000.
             out["sd_start_it"] = loop.iteration
             log.add("API.call", name="shutdown")
             try:
-                if "at" in ctx:
+                if double == "overlap" and ("at" in ctx or "sock" in ctx):
+                    # two callers at (almost) the same time: this one starts a loop turn
+                    # after the other - and what holds after shutdown() returns holds for
+                    # each of them
+                    fn = ctx["at"].shutdown if "at" in ctx else ctx["sock"].close
+                    first = loop.create_task(fn())
+                    mine.add(first)
+                    await asyncio.sleep(0)
+                    await fn()
+                    out["overlapping_shutdowns"] = True
+                    out["first_done_when_second_returned"] = first.done()
+                elif "at" in ctx:
                     await ctx["at"].shutdown()
                     if double:
                         await ctx["at"].shutdown()
@@ -416,7 +428,7 @@ def cases(tier, seed):
                 # (the idle time between shutdown and the re-init: long, or short enough for
                 # anything the old life still held to be unexpired)
                 yield {"gen": gen, "tl": tl, "trigs": trigs[i:i + 12],
-                       "reinit": (i // 12) % 3 != 1, "double": (i // 12) % 4 == 3,
+                       "reinit": (i // 12) % 3 != 1, "double": {1: "overlap", 3: True}.get((i // 12) % 4, False),
                        "idle": 1000.0 if (i // 12) % 2 else 0.5,
                        # shutdown awaited from the clean-up of a cancelled application task
                        "via_cancel": (i // 12) % 5 == 2}
@@ -495,6 +507,8 @@ def judge(gen, tl, trig, o, reinit):
         v("timer-still-scheduled-when-shutdown-returns", timers=o["now_timers"])
     if "now_tasks" in o and not o["now_tasks"] and not o["now_timers"]:
         obs["census_at_return_empty"] = 1
+        if o.get("overlapping_shutdowns"):
+            obs["overlapping_shutdown_calls"] = 1
     if o.get("now_unknown"):
         obs["unattributed_timers_at_return"] = len(o["now_unknown"])
     if o["send_after"] != "NotOpenError":
